@@ -104,7 +104,8 @@ Section Reach.
   Proof.
     intros P Hstep. induction fuel as [|f IH]; intros seen Hs x Hx; cbn [grow] in Hx.
     - apply Hs. assumption.
-    - apply (IH (insert_all (flat_map adj seen) seen)); [|assumption].
+    - cbv zeta in Hx. destruct (Nat.eqb _ _) in Hx; [apply Hs; assumption|].
+      apply (IH (insert_all (flat_map adj seen) seen)); [|assumption].
       intros y Hy. apply insert_all_In in Hy. destruct Hy as [Hy|Hy]; [|apply Hs; assumption].
       apply in_flat_map in Hy. destruct Hy as [u [Hu Hv]]. apply (Hstep u y); [apply Hs; assumption|exact Hv].
   Qed.
@@ -112,7 +113,7 @@ Section Reach.
   Lemma grow_mono : forall fuel seen x, In x seen -> In x (grow adj fuel seen).
   Proof.
     induction fuel as [|f IH]; intros seen x Hx; cbn [grow]; [assumption|].
-    apply IH. apply insert_all_In. right. assumption.
+    cbv zeta. destruct (Nat.eqb _ _); [assumption|]. apply IH. apply insert_all_In. right. assumption.
   Qed.
 
   Lemma closed_complete : forall Rs, closedb adj Rs = true ->
